@@ -219,7 +219,7 @@ def h_submit(shapes=("chain3",), bss=(1, 2), maxns=(None, 1), tas=(True,), time_
                     break
                 c = cluster_status(out)
                 if c is None:
-                    ex.check(False, "C05: cluster lock left behind in a fault-free history (submission wedged)")
+                    ex.check(False, "C01/C03/C05/C09: cluster lock left behind in a fault-free history (submission wedged)")
                     wedged = True
                     break
                 if c.is_complete() or dry_run:
@@ -238,7 +238,7 @@ def h_submit(shapes=("chain3",), bss=(1, 2), maxns=(None, 1), tas=(True,), time_
                         w.resume_proc(live[ex.choice("u%d_%d" % (step, sub_step), len(live))])
                     c = cluster_status(out)
                     if c is None:
-                        ex.check(False, "C05: cluster lock left behind in a fault-free history (submission wedged)")
+                        ex.check(False, "C01/C03/C05/C09: cluster lock left behind in a fault-free history (submission wedged)")
                         wedged = True
                         break
                     ex.check(len(w.events("sbatch")) > before or c.is_complete(),
@@ -253,7 +253,7 @@ def h_submit(shapes=("chain3",), bss=(1, 2), maxns=(None, 1), tas=(True,), time_
                 r = w.user(["jade", "try-submit-jobs", out])
                 c = cluster_status(out)
                 if c is None:
-                    ex.check(False, "C05: cluster lock left behind in a fault-free history (submission wedged)")
+                    ex.check(False, "C01/C03/C05/C09: cluster lock left behind in a fault-free history (submission wedged)")
                     wedged = True
                     break
                 ex.check(len(w.events("sbatch")) > before or c.is_complete(),
@@ -456,7 +456,7 @@ def h_submit(shapes=("chain3",), bss=(1, 2), maxns=(None, 1), tas=(True,), time_
                 ex.check(all(nm[b] in l["results_on_disk"] for b in blockers.get(i, [])),
                          "C12: job started although a blocker has no outcome", job=l["job"])
         else:
-            ex.check(sorted(got) == sorted(nm), "C03: results do not hold exactly one entry per configured job",
+            ex.check(sorted(got) == sorted(nm), "C03/C05: results do not hold exactly one entry per configured job",
                      got=sorted(got), missing=data["missing_jobs"])
             ex.check(not data["missing_jobs"], "C03/C05: completion declared with jobs lacking a result in a fault-free run",
                      missing=data["missing_jobs"])
@@ -542,7 +542,7 @@ def h_submit(shapes=("chain3",), bss=(1, 2), maxns=(None, 1), tas=(True,), time_
                              env=e["env"])
             ex.check(sorted(got) == sorted(nm), "C16: a lifecycle command prevented results from being recorded", got=sorted(got))
         crashes = w.events("crash")
-        ex.check(not crashes or lost, "C05/C16: a JADE process crashed in a fault-free history",
+        ex.check(not crashes or lost, "C01/C03/C05/C09/C16: a JADE process crashed in a fault-free history",
                  crashes=[(c_["argv"][:2], c_["error"]) for c_ in crashes][:3])
         ex.check(obs.reads > 0 or local, "C09: status observer never ran")
         ex.note("histories")
